@@ -11,7 +11,7 @@
    is duplicate-free and grouped by ascending source. *)
 From Coq Require Import ZArith List Bool Lia Sorting.Sorted Permutation.
 From Coq Require Import Reals.
-From Sky Require Import Result PyList Num NumR G_select M_Select M_SelectNum S_Select P_Select P_SelectNum.
+From Sky Require Import Result PyList Num NumR G_select M_Select M_SelectNum M_SelectTdm S_Select P_Select P_SelectNum P_SelectTdm.
 Import ListNotations.
 Local Open Scope nat_scope.
 
@@ -154,6 +154,108 @@ Theorem C05_tdm_nosel : forall (S E : Type) (argsort : list E -> list Z),
 Proof. exact tdm_nosel. Qed.
 Print Assumptions C05_tdm_nosel.
 
+(* ---- deepening ---------------------------------------------------------------- *)
+
+(* PsiFunc and the number of sources.  wf_meth = the other side conditions (wf_other) plus
+   "a tree containing PsiFunc has exactly one source" ... *)
+Theorem C05_wf_split : forall (S E : Type) (m : meth S E) (ns : nat),
+  wf_meth m ns <-> wf_other m /\ (has_psi m = true -> ns = 1).
+Proof. exact @wf_split. Qed.
+Print Assumptions C05_wf_split.
+
+(* ... and the guard is needed: with any other number of sources every tree containing a
+   PsiFunc raises ValueError (the real constructor raises it even earlier), whatever the
+   events and the incoming table.  Together with C05_select: for trees meeting wf_other,
+   select_events succeeds iff (PsiFunc present -> one source). *)
+Theorem C05_psifunc_guard : forall (S E : Type) (srcs : list S), 0 < length srcs ->
+  forall (m : meth S E) (evs : list E) (inc : option tbl),
+    length srcs <> 1 -> wf_other m -> has_psi m = true -> inc_ok (length srcs) (length evs) inc ->
+    run m srcs evs inc = Err ValueError.
+Proof. exact psi_guard. Qed.
+Print Assumptions C05_psifunc_guard.
+
+(* original_evt_idxs for arbitrarily nested intersections: strictly ascending, and
+   events[original_evt_idxs] are the returned events *)
+Theorem C05_orig_maps_back : forall (S E : Type) (m : meth S E) (srcs : list S) (evs : list E),
+  0 < length srcs -> wf_meth m (length srcs) ->
+  exists r, run m srcs evs None = Ok r
+    /\ Forall2 (fun e o => (0 <= o)%Z /\ nth_error evs (Z.to_nat o) = Some e) (s_events r) (s_orig r)
+    /\ StronglySorted Z.lt (s_orig r).
+Proof. exact @orig_maps_back. Qed.
+Print Assumptions C05_orig_maps_back.
+
+(* tdm_post written out (nothing hidden in the definition) *)
+Theorem C05_tdm_post_unfold : forall (E : Type) (argsort : list E -> list Z) (ns : nat)
+    (c : nat -> nat -> bool) (b : bool) (evs ev2 : list E) (t2 : tbl),
+  tdm_post argsort ns c b evs ev2 t2 <->
+  (let quals := filter (fun j => existsb (fun k => c k j) (seq 0 ns)) (seq 0 (length evs)) in
+   exists orig2,
+     Permutation orig2 quals
+     /\ (b = false -> orig2 = quals)
+     /\ Forall2 (fun e j => nth_error evs j = Some e) ev2 orig2
+     /\ (b = true -> exists ev1,
+           Forall2 (fun e j => nth_error evs j = Some e) ev1 quals
+           /\ Forall2 (fun e z => nth_error ev1 (Z.to_nat z) = Some e) ev2 (argsort ev1))
+     /\ StronglySorted (fun p q => (fst p <= fst q)%Z) t2
+     /\ NoDup t2
+     /\ (forall q, In q t2 -> (0 <= fst q < Z.of_nat ns)%Z /\ (0 <= snd q < Z.of_nat (length ev2))%Z)
+     /\ (forall k p, In (Z.of_nat k, Z.of_nat p) t2 <->
+           k < ns /\ exists j, nth_error orig2 p = Some j /\ c k j = true)
+     /\ (forall p, p < length ev2 -> exists k, In (Z.of_nat k, Z.of_nat p) t2)).
+Proof. intros. apply iff_refl. Qed.
+Print Assumptions C05_tdm_post_unfold.
+
+(* initialize_trial, top level: EVERY method tree or no method (criterion "every pair": the
+   default full mapping), with and without an index field, every argsort that returns a
+   permutation: the stored events are the qualifying events (in original order without index
+   field, permuted by argsort with it), the stored table is grouped by ascending source,
+   duplicate-free, in range, lists every stored event, and (k, p) is stored iff the event
+   now at position p qualifies for source k. *)
+Theorem C05_tdm : forall (S E : Type) (argsort : list E -> list Z),
+  (forall l, Permutation (argsort l) (map Z.of_nat (seq 0 (length l)))) ->
+  forall (srcs : list S), 0 < length srcs ->
+  forall (m : option (meth S E)) (evs : list E) (b : bool),
+    wf_opt m (length srcs) ->
+    exists ev2 t2, tdm_init argsort m srcs evs b = Ok (ev2, t2)
+                   /\ tdm_post argsort (length srcs) (crit_opt m srcs evs) b evs ev2 t2.
+Proof. exact tdm_full. Qed.
+Print Assumptions C05_tdm.
+
+(* the re-used manager (state machine over trials; the reset `_src_evt_idxs = None` and the
+   `is None` tests are translated statements): whatever the manager held ... *)
+Theorem C05_tdm_trial_fresh : forall (S E : Type) (argsort : list E -> list Z) (srcs : list S)
+    (st : tstate E) (m : option (meth S E)) (evs : list E),
+  tdm_trial argsort st m srcs evs
+  = (do r <- tdm_init argsort m srcs evs (td_index st);
+     Ok {| td_events := fst r; td_tbl := Some (snd r); td_nsrc := length srcs; td_index := td_index st |}).
+Proof. exact tdm_trial_init. Qed.
+Print Assumptions C05_tdm_trial_fresh.
+
+(* ... so after ANY history of operations (trials with any methods / sources / events,
+   index_field_name changes) a trial succeeds, stores exactly what initialize_trial computes
+   from its own arguments and the index-field setting in force, and the property holds *)
+Theorem C05_tdm_history : forall (S E : Type) (argsort : list E -> list Z),
+  (forall l, Permutation (argsort l) (map Z.of_nat (seq 0 (length l)))) ->
+  forall (st0 : tstate E) (ops : list (top S E)) (st : tstate E)
+         (m : option (meth S E)) (srcs : list S) (evs : list E),
+    0 < length srcs -> wf_opt m (length srcs) ->
+    tdm_run argsort st0 ops = Ok st ->
+    let b := last_index (td_index st0) ops in
+    exists ev2 t2,
+      tdm_run argsort st0 (ops ++ [TTrial m srcs evs])
+      = Ok {| td_events := ev2; td_tbl := Some t2; td_nsrc := length srcs; td_index := b |}
+      /\ tdm_init argsort m srcs evs b = Ok (ev2, t2)
+      /\ tdm_post argsort (length srcs) (crit_opt m srcs evs) b evs ev2 t2.
+Proof. exact tdm_history. Qed.
+Print Assumptions C05_tdm_history.
+
+(* the premise "argsort returns a permutation" is met by an actual sorting procedure
+   (insertion sort on the integer keys; used for np.argsort in the correspondence) *)
+Theorem C05_zargsort_perm : forall l : list Z,
+  Permutation (zargsort l) (map Z.of_nat (seq 0 (length l))).
+Proof. exact zargsort_perm. Qed.
+Print Assumptions C05_zargsort_perm.
+
 (* ---- the criteria themselves, at the real-number reading of the translated formulas
    (RNum erf: the Num instance over R; erf is irrelevant here).  Float rounding is not
    claimed. *)
@@ -212,6 +314,28 @@ Theorem C05_angsep_range : forall (erf : R -> R) (ra1 dec1 ra2 dec2 : R),
 Proof. exact angsep_range. Qed.
 Print Assumptions C05_angsep_range.
 
+(* angular_separation IS the great-circle distance, for all right ascensions and
+   declinations (no range restriction, in particular across the RA seam): the angle whose
+   cosine is the scalar product of the two unit vectors *)
+Theorem C05_angsep_great_circle : forall (erf : R -> R) (ra1 dec1 ra2 dec2 : R),
+  angsep (RNum erf) ra1 dec1 ra2 dec2
+  = acos (sin dec1 * sin dec2 + cos dec1 * cos dec2 * cos (ra1 - ra2))%R.
+Proof. exact angsep_great_circle. Qed.
+Print Assumptions C05_angsep_great_circle.
+
+Theorem C05_angsep_turn_sym : forall (erf : R -> R) (ra1 dec1 ra2 dec2 : R) (k : nat),
+  angsep (RNum erf) (ra1 + 2 * INR k * PI)%R dec1 ra2 dec2 = angsep (RNum erf) ra1 dec1 ra2 dec2
+  /\ angsep (RNum erf) ra1 dec1 ra2 dec2 = angsep (RNum erf) ra2 dec2 ra1 dec1.
+Proof. intros erf ra1 dec1 ra2 dec2 k. split; [exact (angsep_turn erf ra1 dec1 ra2 dec2 k)|exact (angsep_sym erf ra1 dec1 ra2 dec2)]. Qed.
+Print Assumptions C05_angsep_turn_sym.
+
+(* the AngErrOfPsi criterion (func(psi) = a psi + b) on the great-circle distance *)
+Theorem C05_angerr_crit : forall (erf : R -> R) (a b fl sra sdec era edec err : R),
+  let psi := acos (sin sdec * sin edec + cos sdec * cos edec * cos (sra - era))%R in
+  angerr_crit (RNum erf) a b fl sra sdec era edec err = true <-> (a * psi + b <= err \/ psi < fl)%R.
+Proof. exact angerr_crit_R. Qed.
+Print Assumptions C05_angerr_crit.
+
 (* ---- non-vacuity: concrete instances (sources and events are integers, the band
    criterion is |e - s| < 3, the box is the band twice, batch size 2 < 3 sources so the
    batched path runs; PsiFunc with one source; ex_c, ex_rev are defined in spec/S_Select.v) *)
@@ -237,3 +361,27 @@ Proof. cbv zeta. repeat split; vm_compute; reflexivity. Qed.
 Example C05_nonvacuous_argsort :
   forall l : list Z, Permutation (ex_rev l) (map Z.of_nat (seq 0 (length l))).
 Proof. intros l. unfold ex_rev. apply Permutation_sym, Permutation_rev. Qed.
+
+(* a manager re-used over three trials (method + index field, no method, index field switched
+   off + method): the last trial stores what a new manager would *)
+Example C05_nonvacuous_history :
+  let srcs := [0; 10; 11]%Z in
+  let evs := [5; 12; 1; 9; 30; 10]%Z in
+  let m := MAnd (MBand KDec ex_c) (MBox 2 ex_c ex_c (fun s e => (e <? 12)%Z)) in
+  let ops := [TTrial (Some m) srcs evs; TTrial None [7%Z] [3; 4]%Z; TSetIndex false] in
+  match tdm_run ex_rev (tdm_new true) (ops ++ [TTrial (Some (MBand KDec ex_c)) srcs evs]) with
+  | Ok st => td_events st = [12; 1; 9; 10]%Z
+             /\ td_tbl st = Some [(0, 1); (1, 0); (1, 2); (1, 3); (2, 0); (2, 2); (2, 3)]%Z
+             /\ td_nsrc st = 3 /\ td_index st = false
+  | Err _ => False
+  end
+  /\ match tdm_run ex_rev (tdm_new true) [TTrial (Some m) srcs evs; TTrial None [7%Z] [3; 4]%Z] with
+     | Ok st => td_events st = [4; 3]%Z /\ td_tbl st = Some [(0, 0); (0, 1)]%Z
+     | Err _ => False
+     end.
+Proof. cbv zeta. vm_compute. repeat split; reflexivity. Qed.
+
+(* PsiFunc with two sources raises *)
+Example C05_nonvacuous_psi_guard :
+  run (MAnd (MBand KDec ex_c) (MPsi (fun e => (e <? 2)%Z))) [0; 5]%Z [1; 2]%Z None = Err ValueError.
+Proof. vm_compute. reflexivity. Qed.
